@@ -39,8 +39,9 @@ Init == st \in ({[kind |-> "canon", k |-> k, ti |-> ti] : k \in Picked, ti \in 1
                 \cup {[kind |-> "unknown", k |-> 0, ti |-> ti] : ti \in 1..Len(TS)})
 Next == st' \in {}
 
+\* frames of the unknown id travel with another link id than the dialect messages (one window per reader all the same)
 Signed(id, pl, ck, ts) ==
-  LET f0 == Mk(2, 1, 0, (7 + Len(pl)) % 256, 3, 190, id, pl, ck, 9, ts, Z6)
+  LET f0 == Mk(2, 1, 0, (7 + Len(pl)) % 256, 3, 190, id, pl, ck, 77, ts, Z6)
   IN [f0 EXCEPT !.sig = Sign(Key, f0)]
 
 WithCk(f, extra) == [f EXCEPT !.ck = Checksum(f, extra)]
